@@ -801,5 +801,291 @@ theorem set_entry_get (c : Cls) (k : RelKind) (enc : Enc) (b : SecBuf) (hR : Rel
         rw [Nat.succ_mul] at this; omega
     exact ⟨x, h1, by rw [this]; exact h3⟩
 
+/-! ### swapping two symbol indices -/
+
+/-- a relocation table section that stands for the entry list `T` -/
+structure TableSec (c : Cls) (k : RelKind) (enc : Enc) (b : SecBuf) (T : List RelocEntry) : Prop where
+  sec : RelocSec c k b
+  ent : b.entSize.toNat = Spec.entSize c k
+  tab : b.content = encodeTable ⟨c, enc⟩ k T
+
+theorem TableSec.count {c k enc b T} (h : TableSec c k enc b T) :
+    b.size.toNat / b.entSize.toNat = T.length := by
+  rw [← C07.content_length h.sec.inv, h.tab, encodeTable_length, h.ent, Nat.mul_div_cancel _ (entSize_pos c k)]
+
+theorem TableSec.getData {c k enc b T} (h : TableSec c k enc b T) : TableSec c k enc b.getData T := by
+  obtain ⟨hr, hcont⟩ := getData_inv h.sec.inv
+  obtain ⟨g1, g2, g3, g4⟩ := getData_static b
+  exact ⟨⟨Or.inl hr, by rw [g1]; exact h.sec.cls, by rw [g2]; exact h.sec.stype, by rw [g3]; exact h.sec.entSize⟩,
+    by rw [g3]; exact h.ent, by rw [hcont]; exact h.tab⟩
+
+theorem TableSec.get {c k enc b T} (h : TableSec c k enc b T) (idx : BitVec 64) (hi : idx.toNat < T.length)
+    (hfit : Fits c T[idx.toNat]) :
+    ∃ e, getEntry enc b idx = .ok (b.getData, some e) ∧ e.toSpec = normalize c k T[idx.toNat] := by
+  obtain ⟨e, h1, h2⟩ := get_refines c k enc b h.sec idx (by rw [h.count]; exact hi)
+  refine ⟨e, h1, ?_⟩
+  rw [h2, h.ent, h.tab]
+  unfold encodeTable
+  rw [slice_flatMap (encodeEntry ⟨c, enc⟩ k) (Spec.entSize c k) (encodeEntry_length ⟨c, enc⟩ k) T _ hi]
+  exact spec_roundtrip ⟨c, enc⟩ k _ hfit
+
+theorem TableSec.set {c k enc b T} (h : TableSec c k enc b T) (idx : BitVec 64) (hi : idx.toNat < T.length)
+    (e : Entry) (y : RelocEntry) (hy : encodeEntry ⟨c, enc⟩ k e.toSpec = encodeEntry ⟨c, enc⟩ k y) :
+    ∃ b', setEntry enc b idx e = .ok (b', true) ∧ TableSec c k enc b' (T.set idx.toNat y) := by
+  obtain ⟨b', h1, hR', hs, he, hv⟩ := set_entry_frame c k enc b h.sec idx (by rw [h.count]; exact hi) e
+  refine ⟨b', h1, hR', by rw [he]; exact h.ent, ?_⟩
+  rw [hv, h.ent, h.tab, hy]
+  unfold encodeTable
+  exact wr_flatMap (encodeEntry ⟨c, enc⟩ k) (Spec.entSize c k) (encodeEntry_length ⟨c, enc⟩ k) T _ hi y
+
+/-- the symbol range of a class -/
+def symLimit : Cls → Nat
+  | .c32 => 16777216
+  | .c64 => 4294967296
+
+theorem twos_untwos (c : Cls) (a : Int) :
+    twos (wordBytes c) (untwos (wordBytes c) (twos (wordBytes c) a)) % 2 ^ (8 * wordBytes c)
+      = twos (wordBytes c) a % 2 ^ (8 * wordBytes c) := by
+  cases c
+  · simp only [twos, untwos, wordBytes, Nat.reducePow, Nat.reduceMul]
+    by_cases hc : 2 * ((a % ((4294967296 : Nat) : Int)).toNat % 4294967296) < 4294967296
+    · simp only [hc, ↓reduceIte]; omega
+    · simp only [hc, ↓reduceIte]; omega
+  · simp only [twos, untwos, wordBytes, Nat.reducePow, Nat.reduceMul]
+    by_cases hc : 2 * ((a % ((18446744073709551616 : Nat) : Int)).toNat % 18446744073709551616) < 18446744073709551616
+    · simp only [hc, ↓reduceIte]; omega
+    · simp only [hc, ↓reduceIte]; omega
+
+/-- the encoding does not see the difference between an entry and its normal form, also after the
+    symbol has been replaced -/
+theorem encodeEntry_normalize_sym (c : Cfg) (k : RelKind) (e : RelocEntry) (z : Nat) :
+    encodeEntry c k { normalize c.cls k e with sym := z } = encodeEntry c k { e with sym := z } := by
+  unfold encodeEntry encodeRaw normalize
+  simp only []
+  rw [encodeInt_mod]
+  cases k with
+  | rel => simp [hasAddend]
+  | rela =>
+    simp only [hasAddend, if_true]
+    rw [encodeInt_congr c.enc _ _ _ (twos_untwos c.cls e.addend)]
+
+theorem fits_swapSym (c : Cls) (a b : Nat) (ha : a < symLimit c) (hb : b < symLimit c) (e : RelocEntry)
+    (h : Fits c e) : Fits c (swapSym a b e) := by
+  unfold swapSym
+  by_cases h1 : e.sym = a
+  · rw [if_pos h1]
+    cases c <;> simp only [Fits, symLimit] at * <;> omega
+  · rw [if_neg h1]
+    by_cases h2 : e.sym = b
+    · rw [if_pos h2]
+      cases c <;> simp only [Fits, symLimit] at * <;> omega
+    · rw [if_neg h2]; exact h
+
+theorem map_take_set {α : Type} (f : α → α) (l : List α) (i : Nat) (h : i < l.length) :
+    ((l.take i).map f ++ l.drop i).set i (f l[i]) = (l.take (i + 1)).map f ++ l.drop (i + 1) := by
+  induction l generalizing i with
+  | nil => simp at h
+  | cons x xs ih =>
+    cases i with
+    | zero => simp
+    | succ j =>
+      simp only [List.take_succ_cons, List.map_cons, List.cons_append, List.drop_succ_cons, List.set_cons_succ,
+        List.getElem_cons_succ]
+      rw [ih j (by simpa using h)]
+
+theorem map_take_getElem {α : Type} (f : α → α) (l : List α) (i : Nat) (h : i < l.length) :
+    ((l.take i).map f ++ l.drop i)[i]'(by simp; omega) = l[i] := by
+  rw [List.getElem_append_right (by simp; omega)]
+  simp [Nat.min_eq_left (Nat.le_of_lt h)]
+
+theorem ofNat32_toNat {n : Nat} (h : n < 4294967296) : (BitVec.ofNat 32 n).toNat = n := by
+  simp only [BitVec.toNat_ofNat, Nat.reducePow]; omega
+
+/-- one iteration of the loop of `swap_symbols` on entry `i` -/
+theorem swapBody_spec (c : Cls) (k : RelKind) (enc : Enc) (b : SecBuf) (T : List RelocEntry)
+    (h : TableSec c k enc b T) (first second : BitVec 64) (ha : first.toNat < symLimit c)
+    (hb : second.toNat < symLimit c) (i : Nat) (hi : i < T.length) (hi32 : i < 4294967296)
+    (hfit : Fits c T[i]) (cur : Entry) :
+    ∃ b' cur', swapBody enc first second b (BitVec.ofNat 32 i) cur = .ok (b', cur') ∧
+      TableSec c k enc b' (T.set i (swapSym first.toNat second.toNat T[i])) := by
+  have hidx : (BitVec.setWidth 64 (BitVec.ofNat 32 i)).toNat = i := by
+    simp only [BitVec.toNat_setWidth, BitVec.toNat_ofNat, Nat.reducePow]; omega
+  have hlim : symLimit c ≤ 4294967296 := by cases c <;> simp [symLimit]
+  obtain ⟨e, g1, g2⟩ := h.get (BitVec.setWidth 64 (BitVec.ofNat 32 i)) (by rw [hidx]; exact hi)
+    (by simp only [hidx]; exact hfit)
+  simp only [hidx] at g2
+  have hsym : e.symbol.toNat = T[i].sym := by
+    have := congrArg RelocEntry.sym g2; simpa [Entry.toSpec, normalize] using this
+  have hg := h.getData
+  -- the two comparisons
+  have c1 : reloc_swap_eq_first e.symbol first = decide (T[i].sym = first.toNat) := by
+    have hs := e.symbol.isLt
+    simp only [reloc_swap_eq_first, ← hsym]
+    rw [Bool.eq_iff_iff]
+    simp only [beq_iff_eq, decide_eq_true_eq]
+    constructor
+    · intro x; rw [← x]; simp only [BitVec.toNat_setWidth, Nat.reducePow] at *; omega
+    · intro x; apply BitVec.eq_of_toNat_eq; simp only [BitVec.toNat_setWidth, Nat.reducePow] at *; omega
+  have c2 : reloc_swap_eq_second e.symbol second = decide (T[i].sym = second.toNat) := by
+    have hs := e.symbol.isLt
+    simp only [reloc_swap_eq_second, ← hsym]
+    rw [Bool.eq_iff_iff]
+    simp only [beq_iff_eq, decide_eq_true_eq]
+    constructor
+    · intro x; rw [← x]; simp only [BitVec.toNat_setWidth, Nat.reducePow] at *; omega
+    · intro x; apply BitVec.eq_of_toNat_eq; simp only [BitVec.toNat_setWidth, Nat.reducePow] at *; omega
+  -- what a set writes
+  have enc_sym : ∀ z : BitVec 64, z.toNat < symLimit c →
+      encodeEntry ⟨c, enc⟩ k ({ e with symbol := BitVec.setWidth 32 z } : Entry).toSpec
+        = encodeEntry ⟨c, enc⟩ k { T[i] with sym := z.toNat } := by
+    intro z hz
+    have : ({ e with symbol := BitVec.setWidth 32 z } : Entry).toSpec
+        = { normalize c k T[i] with sym := z.toNat } := by
+      rw [← g2]
+      simp only [Entry.toSpec, BitVec.toNat_setWidth, Nat.reducePow]
+      congr 1; omega
+    rw [this]; exact encodeEntry_normalize_sym ⟨c, enc⟩ k T[i] z.toNat
+  unfold swapBody
+  simp only [reloc_swap_idx_get, reloc_swap_idx_set1, reloc_swap_idx_set2, reloc_swap_arg_first,
+    reloc_swap_arg_second, g1, bind, Except.bind, Option.getD_some, c1, c2]
+  by_cases h1 : T[i].sym = first.toNat
+  · simp only [h1, decide_true, if_true]
+    obtain ⟨b1, s1, t1⟩ := hg.set (BitVec.setWidth 64 (BitVec.ofNat 32 i)) (by rw [hidx]; exact hi)
+      { e with symbol := BitVec.setWidth 32 second } _ (enc_sym second hb)
+    simp only [hidx] at t1
+    simp only [s1, pure, Except.pure]
+    by_cases h2 : first.toNat = second.toNat
+    · have hd2 : decide (first.toNat = second.toNat) = true := by simp [h2]
+      simp only [hd2, if_true]
+      obtain ⟨b2, s2, t2⟩ := t1.set (BitVec.setWidth 64 (BitVec.ofNat 32 i))
+        (by rw [hidx, List.length_set]; exact hi)
+        { e with symbol := BitVec.setWidth 32 first } _ (enc_sym first ha)
+      simp only [hidx, List.set_set] at t2
+      simp only [s2]
+      refine ⟨_, _, rfl, ?_⟩
+      have : swapSym first.toNat second.toNat T[i] = { T[i] with sym := first.toNat } := by
+        simp [swapSym, h1, h2]
+      rw [this]; exact t2
+    · have hd2 : decide (first.toNat = second.toNat) = false := by simp [h2]
+      simp only [hd2, Bool.false_eq_true, if_false]
+      refine ⟨_, _, rfl, ?_⟩
+      have : swapSym first.toNat second.toNat T[i] = { T[i] with sym := second.toNat } := by
+        simp [swapSym, h1]
+      rw [this]; exact t1
+  · simp only [h1, decide_false, Bool.false_eq_true, if_false, pure, Except.pure]
+    by_cases h2 : T[i].sym = second.toNat
+    · simp only [h2, decide_true, if_true]
+      obtain ⟨b2, s2, t2⟩ := hg.set (BitVec.setWidth 64 (BitVec.ofNat 32 i)) (by rw [hidx]; exact hi)
+        { e with symbol := BitVec.setWidth 32 first } _ (enc_sym first ha)
+      simp only [hidx] at t2
+      simp only [s2]
+      refine ⟨_, _, rfl, ?_⟩
+      have : swapSym first.toNat second.toNat T[i] = { T[i] with sym := first.toNat } := by
+        simp [swapSym, h1, h2]
+      rw [this]; exact t2
+    · simp only [h2, decide_false, Bool.false_eq_true, if_false]
+      refine ⟨_, _, rfl, ?_⟩
+      have : swapSym first.toNat second.toNat T[i] = T[i] := by simp [swapSym, h1, h2]
+      rw [this, List.set_getElem_self]; exact hg
+
+theorem swap_loop_cond (i : Nat) (hi : i < 4294967296) (n : BitVec 64) :
+    reloc_swap_loop_cond (BitVec.ofNat 32 i) n = decide (i < n.toNat) := by
+  have hn := n.isLt
+  simp only [reloc_swap_loop_cond, BitVec.ult, BitVec.toNat_setWidth, BitVec.toNat_ofNat, Nat.reducePow] at *
+  congr 1
+  rw [Nat.mod_eq_of_lt hi, Nat.mod_eq_of_lt (by omega)]
+
+theorem ofNat32_succ (i : Nat) : BitVec.ofNat 32 i + 1 = BitVec.ofNat 32 (i + 1) := by
+  apply BitVec.eq_of_toNat_eq
+  have h1 : (1 : BitVec 32).toNat = 1 := rfl
+  simp only [BitVec.toNat_add, BitVec.toNat_ofNat, Nat.reducePow, h1]
+  omega
+
+/-- the loop of `swap_symbols`, by induction on the fuel: entries below `i` are already exchanged -/
+theorem swapLoop_spec (c : Cls) (k : RelKind) (enc : Enc) (first second : BitVec 64)
+    (ha : first.toNat < symLimit c) (hb : second.toNat < symLimit c) (es : List RelocEntry)
+    (hfit : ∀ e ∈ es, Fits c e) (hn : es.length < 4294967296) :
+    ∀ (fuel i : Nat) (b : SecBuf) (cur : Entry), i ≤ es.length → es.length - i < fuel →
+      TableSec c k enc b ((es.take i).map (swapSym first.toNat second.toNat) ++ es.drop i) →
+      ∃ b', swapLoop enc first second fuel b (BitVec.ofNat 32 i) cur = .ok b' ∧
+        TableSec c k enc b' (swapTable first.toNat second.toNat es) := by
+  intro fuel
+  induction fuel with
+  | zero => intro i b cur _ h; omega
+  | succ fuel ih =>
+    intro i b cur hi hf hT
+    have hlen : ((es.take i).map (swapSym first.toNat second.toNat) ++ es.drop i).length = es.length := by
+      simp; omega
+    have hcnt : (entriesNumV b).toNat = es.length := by rw [entriesNumV_toNat, hT.count, hlen]
+    unfold swapLoop
+    simp only [entriesNum_ok, bind, Except.bind, swap_loop_cond i (by omega), hcnt]
+    by_cases hlt : i < es.length
+    · simp only [hlt, decide_true, Bool.not_true, Bool.false_eq_true, if_false]
+      have hget := map_take_getElem (swapSym first.toNat second.toNat) es i hlt
+      obtain ⟨b1, cur1, h1, t1⟩ := swapBody_spec c k enc b _ hT first second ha hb i (by rw [hlen]; exact hlt)
+        (by omega) (by rw [hget]; exact hfit _ (List.getElem_mem hlt)) cur
+      rw [hget, map_take_set _ _ _ hlt] at t1
+      obtain ⟨b2, h2, t2⟩ := ih (i + 1) b1 cur1 (by omega) (by omega) t1
+      refine ⟨b2, ?_, t2⟩
+      simp only [h1, ofNat32_succ]
+      exact h2
+    · simp only [hlt, decide_false, Bool.not_false, if_true, pure, Except.pure]
+      refine ⟨b, rfl, ?_⟩
+      have hie : i = es.length := by omega
+      subst hie
+      simpa [swapTable] using hT
+
+/-- **swap_symbols refines the exchange of two symbol indices** on a table built from entries in the
+    ranges of the packing: every entry whose symbol is `first` gets `second` and vice versa; offsets,
+    types and addends and all other entries keep their bytes -/
+theorem swap_refines (c : Cls) (k : RelKind) (enc : Enc) (b : SecBuf) (es : List RelocEntry)
+    (h : TableSec c k enc b es) (hfit : ∀ e ∈ es, Fits c e) (hn : es.length < 4294967296)
+    (first second : BitVec 64) (ha : first.toNat < symLimit c) (hb : second.toNat < symLimit c) :
+    ∃ b', swapSymbols enc b first second = .ok b' ∧
+      TableSec c k enc b' (swapTable first.toNat second.toNat es) := by
+  unfold swapSymbols
+  have hcnt : (entriesNumV b).toNat = es.length := by rw [entriesNumV_toNat, h.count]
+  rw [hcnt]
+  exact swapLoop_spec c k enc first second ha hb es hfit hn (es.length + 1) 0 b _ (by omega) (by omega)
+    (by simpa using h)
+
+/-- **swap_symbols twice restores the table**, byte for byte -/
+theorem swap_symbols_involutive (c : Cls) (k : RelKind) (enc : Enc) (b : SecBuf) (es : List RelocEntry)
+    (h : TableSec c k enc b es) (hfit : ∀ e ∈ es, Fits c e) (hn : es.length < 4294967296)
+    (first second : BitVec 64) (ha : first.toNat < symLimit c) (hb : second.toNat < symLimit c) :
+    ∃ b1 b2, swapSymbols enc b first second = .ok b1 ∧ swapSymbols enc b1 first second = .ok b2 ∧
+      b2.content = b.content ∧ TableSec c k enc b2 es := by
+  obtain ⟨b1, h1, t1⟩ := swap_refines c k enc b es h hfit hn first second ha hb
+  have hfit1 : ∀ e ∈ swapTable first.toNat second.toNat es, Fits c e := by
+    intro e he
+    simp only [swapTable, List.mem_map] at he
+    obtain ⟨e0, hm, rfl⟩ := he
+    exact fits_swapSym c _ _ ha hb e0 (hfit e0 hm)
+  obtain ⟨b2, h2, t2⟩ := swap_refines c k enc b1 _ t1 hfit1 (by simpa [swapTable] using hn) first second ha hb
+  rw [swapTable_involutive] at t2
+  exact ⟨b1, b2, h1, h2, by rw [t2.tab, h.tab], t2⟩
+
+/-! ### reachable starting points and non-vacuity -/
+
+/-- a freshly created section with the type and entry size of a relocation table is a `TableSec`
+    for the empty table -/
+theorem fresh_reloc (c : Cls) (k : RelKind) (enc : Enc) :
+    TableSec c k enc { SecBuf.fresh c (shtOf k) with entSize := BitVec.ofNat 64 (Spec.entSize c k) } [] := by
+  have hty : shtOf k ≠ BitVec.ofNat 32 SHT_NOBITS := by cases k <;> decide
+  have r : ({ SecBuf.fresh c (shtOf k) with entSize := BitVec.ofNat 64 (Spec.entSize c k) } : SecBuf).Resident :=
+    ⟨hty, by simp [SecBuf.fresh], Or.inl ⟨rfl, rfl, rfl⟩, by simp [SecBuf.fresh]⟩
+  have he : (BitVec.ofNat 64 (Spec.entSize c k)).toNat = Spec.entSize c k := by
+    cases c <;> cases k <;> decide
+  refine ⟨⟨Or.inl r, rfl, rfl, by show _ ≤ (BitVec.ofNat 64 _).toNat; rw [he]; exact Nat.le_refl _⟩, he, ?_⟩
+  rw [C07.content_resident r]; simp [SecBuf.view, SecBuf.fresh, encodeTable]
+
+example : RelocSec .c32 .rela { SecBuf.fresh .c32 (shtOf .rela) with entSize := 12 } :=
+  (fresh_reloc .c32 .rela .msb).sec
+example : Fits .c32 ({ offset := 0x1122334455, symbol := 0xFFFFFF, type := 0xFF, addend := -1 } : Entry).toSpec := by
+  simp [Fits, Entry.toSpec]
+example : SecBuf.Bound .c32 ((0 + 40) * Spec.entSize .c32 .rela) := by
+  simp [SecBuf.Bound, Spec.entSize, wordBytes]
+example : (0x10203#64).toNat < symLimit .c32 := by decide
+
 end C11
 end ElfioVerif
